@@ -106,6 +106,26 @@ def holdsC05Headers (origin : List (Bytes × Bytes)) (ruleResp : List (Bytes × 
   (ruleResp.all fun kv => headerValues v.headers (trimSpace kv.1) == [trimSpace kv.2]) &&
   headerValues v.headers b!"richie-edge-cache" == [b!"pass"]
 
+/-- C04 at system level, per contact: an external destination never sees any of the three
+    internal headers; an internal one (rule flagged internal AND secrets configured) always gets a
+    configured secret, a request id and the originating-IP header -/
+def holdsC04Contact (internal : Bool) (secrets : List Bytes) (c : ContactObs) : Bool :=
+  let sec := headerValues c.headers b!"Richie-Routing-Secret"
+  let rid := headerValues c.headers b!"Richie-Request-ID"
+  let ip := headerValues c.headers b!"Richie-Originating-IP"
+  if internal then
+    (match sec with | [v] => secrets.contains v | _ => false) &&
+    (match rid with | [v] => v ≠ [] | _ => false) && ip.length == 1
+  else sec.isEmpty && rid.isEmpty && ip.isEmpty
+
+/-- every answered contact, classified by the rule whose destination host it is -/
+def holdsC04 (ruleOfHost : Bytes → Option Bool) (secretsNil : Bool) (secrets : List Bytes)
+    (cs : List ContactObs) : Bool :=
+  cs.all fun c =>
+    match ruleOfHost c.host with
+    | some internalFlag => holdsC04Contact (internalFlag && !secretsNil) secrets c
+    | none => true
+
 /-- C20: with and without the copy rules the client sees the same response -/
 def holdsC20Invisible (withCopy withoutCopy : ViewObs) : Bool :=
   withCopy.status == withoutCopy.status && withCopy.framing == withoutCopy.framing &&
